@@ -66,6 +66,8 @@ def flatten_switch_body(body):
 def switch_cases(sw):
     """{label value: [statements executed from that label up to break/return]} for a SwitchStmt;
     fall-through runs into the next label's statements"""
+    if sw.get("ifchain") is not None:
+        return dict(sw["ifchain"])
     seq = flatten_switch_body(sw["c"][1])
     cases = {}
     for i, item in enumerate(seq):
